@@ -50,10 +50,13 @@ type scenario struct {
 	closes bool // producer closes the source after the events
 	cons   int
 	cancel bool
+	// vars: the subscription declares a variable of an enum type whose internal values are
+	// not the value names; 1 = its default is used, 2 = a value is supplied
+	vars int
 }
 
 func (s scenario) String() string {
-	return fmt.Sprintf("request=%s events=%d failing_event=%d nil_event=%d producer_closes=%v consumer=%s cancel=%v", reqNames[s.req], s.events, s.bad, s.nilAt-1, s.closes, consNames[s.cons], s.cancel)
+	return fmt.Sprintf("request=%s events=%d failing_event=%d nil_event=%d producer_closes=%v consumer=%s cancel=%v enum_variable=%s", reqNames[s.req], s.events, s.bad, s.nilAt-1, s.closes, consNames[s.cons], s.cancel, [...]string{"none", "defaulted", "supplied"}[s.vars])
 }
 
 type env struct {
@@ -78,10 +81,15 @@ func buildSchema(e *env, sc scenario) (graphql.Schema, error) {
 	ev := graphql.NewObject(graphql.ObjectConfig{Name: "Ev", Fields: graphql.Fields{
 		"v": &graphql.Field{Type: graphql.String},
 	}})
+	mode := graphql.NewEnum(graphql.EnumConfig{Name: "Mode", Values: graphql.EnumValueConfigMap{"HI": &graphql.EnumValueConfig{Value: 7}, "LO": &graphql.EnumValueConfig{Value: 3}}})
 	sub := graphql.NewObject(graphql.ObjectConfig{Name: "Subscription", Fields: graphql.Fields{
-		"ev": &graphql.Field{Type: ev,
+		"ev": &graphql.Field{Type: ev, Args: graphql.FieldConfigArgument{"m": &graphql.ArgumentConfig{Type: mode}},
 			Resolve: func(p graphql.ResolveParams) (interface{}, error) {
 				m, _ := p.Source.(map[string]interface{})
+				if mv, ok := p.Args["m"]; ok && len(m) > 0 && m["bad"] != true {
+					// the coerced argument is part of the answer
+					return map[string]interface{}{"v": fmt.Sprintf("%v/%v", m["v"], mv)}, nil
+				}
 				if len(m) == 0 {
 					// a nil payload is an event like any other
 					return map[string]interface{}{"v": "nil-event"}, nil
@@ -113,6 +121,9 @@ func requestText(sc scenario) string {
 		return "subscription { ev { v }"
 	case reqInvalid:
 		return "subscription { ev { nope } }"
+	}
+	if sc.vars > 0 {
+		return "subscription($m: Mode = HI) { ev(m: $m) { v } }"
 	}
 	return "subscription { ev { v } }"
 }
@@ -149,7 +160,11 @@ func execute(x *explore.X, sc scenario, horizon int) outcome {
 				e.pan = r
 			}
 		}()
-		ch := graphql.Subscribe(graphql.Params{Schema: schema, RequestString: text, Context: e.ctx})
+		var vars map[string]interface{}
+		if sc.vars == 2 {
+			vars = map[string]interface{}{"m": "LO"}
+		}
+		ch := graphql.Subscribe(graphql.Params{Schema: schema, RequestString: text, Context: e.ctx, VariableValues: vars})
 		if sc.cons == consNone {
 			e.consDone = true
 			return
@@ -234,6 +249,9 @@ func execute(x *explore.X, sc scenario, horizon int) outcome {
 			if i == sc.nilAt-1 {
 				want = `{"data":{"ev":{"v":"nil-event"}}}`
 			}
+			if sc.vars > 0 {
+				want = fmt.Sprintf(`{"data":{"ev":{"v":"e%d/%d"}}}`, i, [...]int{0, 7, 3}[sc.vars])
+			}
 			if g != want {
 				set(fmt.Sprintf("result %d is %s, expected %s", i, g, want))
 				break
@@ -301,6 +319,10 @@ func scenarios(thorough bool) []scenario {
 	// a nil payload is not the end of the stream
 	out = append(out, scenario{req: reqValid, events: 2, bad: -1, nilAt: 1, closes: true, cons: consAll, cancel: false})
 	out = append(out, scenario{req: reqValid, events: 2, bad: -1, nilAt: 2, closes: false, cons: consAll, cancel: true})
+	// a variable of an enum type whose internal values are not the names: defaulted, supplied
+	out = append(out, scenario{req: reqValid, events: 1, bad: -1, closes: true, cons: consAll, cancel: false, vars: 1})
+	out = append(out, scenario{req: reqValid, events: 2, bad: -1, closes: true, cons: consAll, cancel: false, vars: 2})
+	out = append(out, scenario{req: reqValid, events: 1, bad: -1, closes: false, cons: consAll, cancel: true, vars: 2})
 	for req := reqSyntax; req < nReq; req++ {
 		for cons := consAll; cons <= consNone; cons += 2 {
 			for _, cancel := range []bool{false, true} {
